@@ -769,6 +769,14 @@ func replaysDir() string {
 	return filepath.Join(verifDir, "replays")
 }
 
+// evidenceDir: /verif/evidence, or a private directory for tagged (development) invocations
+func evidenceDir() string {
+	if t := os.Getenv("VERIF_TAG"); t != "" {
+		return filepath.Join(verifDir, "build", "evidence"+t)
+	}
+	return filepath.Join(verifDir, "evidence")
+}
+
 func sigKey(m map[string]string) string {
 	ks := make([]string, 0, len(m))
 	for k := range m {
@@ -981,8 +989,8 @@ func writeEvidence(prop, tier string, seed uint64, lines []RunLine, tc tierCfg, 
 		},
 	}
 	b, _ := json.MarshalIndent(ev, "", " ")
-	os.MkdirAll(filepath.Join(verifDir, "evidence"), 0o755)
-	if err := os.WriteFile(filepath.Join(verifDir, "evidence", prop+".json"), b, 0o644); err != nil {
+	os.MkdirAll(evidenceDir(), 0o755)
+	if err := os.WriteFile(filepath.Join(evidenceDir(), prop+".json"), b, 0o644); err != nil {
 		die2("cannot write evidence: %v", err)
 	}
 }
